@@ -286,7 +286,11 @@ def r5_order(ctx):
         for name in ('make_inter', 'make_union'):
             f2 = cr.fn(RM + name)
             simp = [bb for bb, c, a, de, tg, l, ex in f2.calls() if (c.get('resolved') or c.get('callee')) == RE + 'simplify_set_operation']
-            mk = [bb for bb, c, a, de, tg, l, ex in f2.calls() if (c.get('resolved') or c.get('callee')) == RM + 'make']
+            # the key is built by `make`, or inside a helper extracted later (which then must come after the normalisation too)
+            def builds_key(nm):
+                h = cr.fn(nm or '')
+                return nm == RM + 'make' or (h is not None and nm not in KNOWN and any((c_.get('resolved') or c_.get('callee')) == RM + 'make' for _b, c_, *_r in h.calls()))
+            mk = [bb for bb, c, a, de, tg, l, ex in f2.calls() if builds_key(c.get('resolved') or c.get('callee'))]
             ok = len(simp) == 1 and all(f2.dominates(simp[0], b) for b in mk) and bool(mk)
             ctx.obligation(ok)
             (ctx.ok if ok else ctx.violation)('C07.R5', 'C07.R5/%s/operands-normalised-before-the-key-is-built' % name, f2.path, f2.site(), None, cfg)
